@@ -48,9 +48,9 @@ func panicker(kind int, s string) interface{} {
 	case 6:
 		return panFmtPartial{s}
 	case 7:
-		return []interface{}{panStr{s}, "x"}
+		return []interface{}{panStr{s}, redact.SafeString("x")}
 	case 8:
-		return ifaceStruct{panErr{s}, 1}
+		return ifaceStruct{panErr{s}, redact.SafeInt(1)}
 	}
 	panic("panicker")
 }
@@ -67,7 +67,7 @@ func H_c11p(p []int) {
 	for k := range bs {
 		vAssume(bs[k] != '\n')
 	}
-	vAssume(validUTF8(bs))
+	vAssumeValidUTF8(bs)
 	s := string(bs)
 	format := "head‹ " + d + " tail %v|%d"
 	vSite(fmt.Sprintf("panicker=%d dir=%q", kind, d))
@@ -86,10 +86,10 @@ func H_c11p(p []int) {
 	if kind <= 3 || kind >= 6 {
 		// fmt-compatible panickers: compare with the standard library
 		f := catchFmt(func() string { return fmt.Sprintf(format, panicker(kind, s), "t‹", 5) })
-		f0 := catchFmt(func() string { return fmt.Sprintf(format, panicker(kind, ""), "t‹", "") })
+		f0 := catchFmt(func() string { return fmt.Sprintf(format, panicker(kind, ""), "t‹", blankI(0)) })
 		vAssert(!f.panicked, "C11/fmt-contains-too")
 		vAssert(bytesEq(strip(out), esc([]byte(f.out))), "C11/text-as-fmt")
-		if wf && kind != 6 {
+		if wf && kind != 6 && containsBytes([]byte(f0.out), []byte("PANIC=")) {
 			// with envelopes deleted only the payload (and the unsafe 5) is gone
 			vAssert(bytesEq(delEnv(out), esc([]byte(f0.out))), "C11/only-payload-enveloped")
 		}
